@@ -44,6 +44,7 @@ import (
 //	    v = ok | err | panic:<msg> of StateValidator.ValidateContent ; p = ok:<stored bytes> | err | panic:<msg> of Storage.Put on a fresh in-memory store
 //	raw <key> <content> | v:<r> p:<r>      content key / content that the SSZ layer rejects (never reaches the trie code)
 //	nib <bytes> | ok <nibbles> / err       Nibbles.Deserialize
+//	hist <n> <step>@... | <obs>@...@S:<store>   a sequence of items on ONE validator and ONE storage (see c13hist)
 func init() { registry["C13"] = runC13 }
 
 // ---------------------------------------------------------------- oracle
@@ -190,7 +191,15 @@ func c13wire(c *Ctx, tag string, oracle []byte, key, content []byte) {
 
 func c13emit(c *Ctx, k *c13case, key, content []byte) {
 	v, p := c13run(k.blockHash, k.oracle, key, content)
-	// tables
+	c.Count("val_" + k.kind)
+	c.Count("val_v_" + strings.SplitN(v, ":", 2)[0])
+	c.Count("tag_" + strings.SplitN(k.tag, "/", 2)[0])
+	c.Emit("val %s | v:%s p:%s", strings.Join(c13fields(k), " "), v, p)
+}
+
+// c13fields renders the 13 fields of a case (see the header comment): the decoded pieces plus, for every proof node, its
+// keccak and its decoded form, and the FullAccount result of every leaf value in the account proof.
+func c13fields(k *c13case) []string {
 	var tbl []string
 	accts := map[string]string{}
 	for _, n := range k.acctProof {
@@ -225,11 +234,176 @@ func c13emit(c *Ctx, k *c13case, key, content []byte) {
 		}
 		return strings.Join(l, ";")
 	}
-	c.Count("val_" + k.kind)
-	c.Count("val_v_" + strings.SplitN(v, ":", 2)[0])
-	c.Count("tag_" + strings.SplitN(k.tag, "/", 2)[0])
-	c.Emit("val %s %s %s %s %s %s %s %s %s %s %s %s %s | v:%s p:%s", k.tag, k.kind, oracle, hx(k.blockHash), hx(k.addrHash), nibhex(k.path),
-		hx(k.keyHash), hx(k.code), codek, hxl(k.acctProof), hxl(k.mainProof), join(tbl), join(al), v, p)
+	return []string{k.tag, k.kind, oracle, hx(k.blockHash), hx(k.addrHash), nibhex(k.path), hx(k.keyHash), hx(k.code), codek,
+		hxl(k.acctProof), hxl(k.mainProof), join(tbl), join(al)}
+}
+
+// ---------------------------------------------------------------- histories on ONE validator and ONE storage
+
+// scripted header source: before every step the harness installs the answer for that step
+type c13Scripted struct{ cur *c13Oracle }
+
+func (o *c13Scripted) GetHistoricalSummaries(epoch uint64) (capella.HistoricalSummaries, error) {
+	return nil, errors.New("not used")
+}
+func (o *c13Scripted) GetFinalizedStateRoot() ([]byte, error) { return nil, errors.New("not used") }
+func (o *c13Scripted) GetBlockHeaderByHash(hash []byte) (*types.Header, error) {
+	return o.cur.GetBlockHeaderByHash(hash)
+}
+
+// c13hist drives one StateValidator and one state Storage through the steps (ValidateContent, then Put iff it returned
+// nil, as state/network.go validateContents does) and emits one line:
+//
+//	hist <n> <step>@<step>@... | <obs>@<obs>@...@S:<id>~<value>;...
+//	step = the 13 val fields + the content id, joined by ^ ; the oracle field is the header source's answer DURING that
+//	step (root served for the step's block hash, ! = the lookup fails) ; obs = v:<r>,p:<r or -> ; S = final store, sorted
+func c13hist(c *Ctx, steps []*c13case) {
+	script := &c13Scripted{}
+	val := state.NewStateValidator(script)
+	mock := storage.NewMockStorage()
+	st := state.NewStateStorage(mock, nil)
+	var fs, obs []string
+	for _, k0 := range steps {
+		key, content := k0.serialize()
+		k := c13decode(key, content)
+		if k == nil {
+			continue // the SSZ layer rejects it: not a step of the trie-level history
+		}
+		k.tag, k.oracle = strings.ReplaceAll(k0.tag, "/", "_"), k0.oracle
+		script.cur = &c13Oracle{roots: map[string][]byte{}}
+		if k.oracle != nil {
+			script.cur.roots[string(k.blockHash)] = k.oracle
+		}
+		id := sha256.Sum256(key)
+		var err error
+		v, p := "ok", "-"
+		if pn, msg := guard(func() { err = val.ValidateContent(key, content) }); pn {
+			v = "panic:" + msg
+		} else if err != nil {
+			v = "err"
+		}
+		if v == "ok" {
+			if pn, msg := guard(func() { err = st.Put(key, id[:], content) }); pn {
+				p = "panic:" + msg
+			} else if err != nil {
+				p = "err"
+			} else if got, ok := mock.(*storage.MockStorage).Db[string(id[:])]; ok {
+				p = "ok:" + hx(got)
+			} else {
+				p = "ok:NOTHING-UNDER-CONTENT-ID"
+			}
+		}
+		c.Count("hist_step_" + strings.SplitN(k.tag, "_", 2)[0])
+		c.Count("hist_v_" + strings.SplitN(v, ":", 2)[0])
+		fs = append(fs, strings.Join(append(c13fields(k), hx(id[:])), "^"))
+		obs = append(obs, "v:"+v+",p:"+p)
+	}
+	if len(fs) == 0 {
+		return
+	}
+	var final []string
+	for id, v := range mock.(*storage.MockStorage).Db {
+		final = append(final, hx([]byte(id))+"~"+hx(v))
+	}
+	sort.Strings(final)
+	fin := "."
+	if len(final) > 0 {
+		fin = strings.Join(final, ";")
+	}
+	c.Count("hist")
+	c.Count(fmt.Sprintf("hist_len_%d", len(fs)))
+	c.Emit("hist %d %s | %s@S:%s", len(fs), strings.Join(fs, "@"), strings.Join(obs, "@"), fin)
+}
+
+// honest items of a world, as candidates for history steps
+func (w *c13world) candidates(r *Rng, max int) []*c13case {
+	var out []*c13case
+	for _, p := range w.acct.paths {
+		pr := w.acct.proof(p)
+		out = append(out, &c13case{tag: "honest", kind: "atn", oracle: w.acct.root, blockHash: w.blockHash, addrHash: make([]byte, 32), path: []byte(p),
+			keyHash: keccak(pr[len(pr)-1]), mainProof: pr})
+	}
+	for _, ct := range w.contracts {
+		ap := w.accountProof(ct.addrHash)
+		out = append(out, &c13case{tag: "honest", kind: "cbc", oracle: w.acct.root, blockHash: w.blockHash, addrHash: ct.addrHash, keyHash: keccak(ct.code),
+			code: ct.code, acctProof: ap})
+		for _, p := range ct.storage.paths {
+			pr := ct.storage.proof(p)
+			out = append(out, &c13case{tag: "honest", kind: "csn", oracle: w.acct.root, blockHash: w.blockHash, addrHash: ct.addrHash, path: []byte(p),
+				keyHash: keccak(pr[len(pr)-1]), acctProof: ap, mainProof: pr})
+		}
+	}
+	for len(out) > max {
+		i := r.Intn(len(out))
+		out[i] = out[len(out)-1]
+		out = out[:len(out)-1]
+	}
+	return out
+}
+
+// c13histories: sequences of 3..8 items over three blocks A/B/C on one validator, the header source scripted per step:
+// serve by hash / fail this lookup / serve another block's header; honest, foreign (another block's proof under this
+// block's hash) and mutated items; the same block hash is often repeated right after a failed lookup.
+func c13histories(c *Ctx, r *Rng, n int) {
+	var ws []*c13world
+	var cands [][]*c13case
+	for i := 0; i < 3; i++ {
+		w := c13makeWorld(r, 2+r.Intn(30), 1+r.Intn(2), 1+r.Intn(10))
+		ws = append(ws, w)
+		cands = append(cands, w.candidates(r, 60))
+	}
+	pick := func(x int) *c13case { return cands[x][r.Intn(len(cands[x]))].clone() }
+	other := func(x int) int { return (x + 1 + r.Intn(2)) % 3 }
+	foreign := func(x int) *c13case { // content of another block, naming block x; the header source serves x's real header
+		k := pick(other(x))
+		k.tag, k.blockHash, k.oracle = "hist-foreign-proof", ws[x].blockHash, ws[x].acct.root
+		return k
+	}
+	failing := func(x int) *c13case {
+		k := pick(x)
+		k.tag, k.oracle = "hist-lookup-fails", nil
+		return k
+	}
+	// directed: A accepted, lookup for B fails, then items naming B (a proof rooted at A, then genuine B content)
+	for a := 0; a < 3; a++ {
+		for rep := 0; rep < 3; rep++ {
+			b := other(a)
+			fa := pick(a)
+			fb := pick(a)
+			fb.tag, fb.blockHash, fb.oracle = "hist-foreign-proof", ws[b].blockHash, ws[b].acct.root
+			c13hist(c, []*c13case{fa, failing(b), fb, pick(b), pick(a)})
+		}
+	}
+	for h := 0; h < n; h++ {
+		ln := 3 + r.Intn(6)
+		var steps []*c13case
+		x := r.Intn(3)
+		for i := 0; i < ln; i++ {
+			if i > 0 && r.Bool() {
+				x = r.Intn(3)
+			}
+			var k *c13case
+			switch q := r.Intn(20); {
+			case q < 7:
+				k = pick(x)
+			case q < 11:
+				k = failing(x)
+			case q < 14:
+				k = foreign(x)
+			case q < 16: // another block's header is served for this hash: the genuine item no longer fits
+				k = pick(x)
+				k.tag, k.oracle = "hist-wrong-header", ws[other(x)].acct.root
+			case q < 18: // another block's header AND that block's content under this hash: fits the served header
+				y := other(x)
+				k = pick(y)
+				k.tag, k.blockHash = "hist-wrong-header-matching", ws[x].blockHash
+			default:
+				k = c13mutate(r, pick(x), nil)
+			}
+			steps = append(steps, k)
+		}
+		c13hist(c, steps)
+	}
 }
 
 func unhxe(s string) []byte {
@@ -1232,6 +1406,24 @@ func c13replay(c *Ctx, lines []string) {
 			c13nib(c, unhx(f[1]))
 		case "raw":
 			c13raw(c, unhx(f[1]), unhx(f[2]))
+		case "hist":
+			if len(f) < 3 {
+				continue
+			}
+			var steps []*c13case
+			for _, st := range strings.Split(f[2], "@") {
+				g := strings.Split(st, "^")
+				if len(g) < 11 {
+					continue
+				}
+				k := &c13case{tag: g[0], kind: g[1], blockHash: unhx(g[3]), addrHash: unhx(g[4]), path: unhx(g[5]), keyHash: unhx(g[6]),
+					code: unhx(g[7]), acctProof: unhxl(g[9]), mainProof: unhxl(g[10])}
+				if g[2] != "!" {
+					k.oracle = unhx(g[2])
+				}
+				steps = append(steps, k)
+			}
+			c13hist(c, steps)
 		case "val":
 			if len(f) < 12 {
 				continue
@@ -1344,6 +1536,13 @@ func runC13(c *Ctx) {
 			c13exec(c, k2)
 		}
 	}
+
+	// 3b. histories on one validator instance and one storage
+	nhist := 60 + 240*scale
+	if c.N > 0 {
+		nhist = c.N / 8
+	}
+	c13histories(c, r, nhist)
 
 	// 4. honest worlds: account trie + contracts with storage tries, every hashed node as the target
 	type plan struct{ accts, contracts, slots, budget int }
